@@ -1180,6 +1180,13 @@ func c17Enumerate(thorough bool, f func(s c17Sig)) {
 		}
 		f(c17Sig{Group: "multi", Extra: strconv.Itoa(mask)})
 	}
+	// 8. Go functions shadowed by AWK functions of the same name: every subset
+	// of three Go functions x three name sets (different sort positions)
+	for ns := 0; ns < len(c17ShadowNames); ns++ {
+		for mask := 0; mask < 8; mask++ {
+			f(c17Sig{Group: "shadow", Extra: fmt.Sprintf("%d/%d", ns, mask)})
+		}
+	}
 	// 7. non-function values
 	nf := []string{"int", "string", "float", "struct", "bytes", "map", "pointer", "pointer-to-func", "nil", "typed-nil-func"}
 	sort.Strings(nf)
@@ -1202,6 +1209,67 @@ func c17Dispatch(c *core.Ctx, r *c17Runner, s c17Sig) {
 		c17CheckMulti(c, r, s)
 	case "nonfunc":
 		c17CheckNonFunc(c, r, s)
+	case "shadow":
+		c17CheckShadow(c, r, s)
+	}
+}
+
+// c17ShadowNames: names for the three Go functions (one-string, one-int and
+// three-string parameter lists), in different alphabetical positions relative
+// to each other and to the other names in Funcs.
+var c17ShadowNames = [][3]string{{"alpha", "beta", "gamma"}, {"zz", "mid", "aa"}, {"f2", "f10", "f1"}}
+
+// c17CheckShadow: a function defined in the AWK program takes precedence over a
+// Go function of the same name; the other Go functions are still the ones
+// called under their names, with their own signatures.
+func c17CheckShadow(c *core.Ctx, r *c17Runner, s c17Sig) {
+	var ns, mask int
+	fmt.Sscanf(s.Extra, "%d/%d", &ns, &mask)
+	names := c17ShadowNames[ns]
+	var got []string
+	funcs := map[string]any{
+		names[0]: func(x string) string { return "go0(" + x + ")" },
+		names[1]: func(n int) int { return n * 10 },
+		names[2]: func(a, b, c string) string { return "go2(" + a + "," + b + "," + c + ")" },
+		"obs":    func(v string) { got = append(got, v) },
+	}
+	var src strings.Builder
+	var want []string
+	for i, n := range names {
+		if mask&(1<<uint(i)) != 0 {
+			fmt.Fprintf(&src, "function %s(p, q, r) { return \"awk%d(\" p \",\" q \",\" r \")\" }\n", n, i)
+		}
+	}
+	src.WriteString("BEGIN {\n")
+	calls := []string{names[0] + "(\"s\")", names[1] + "(4.9)", names[2] + "(1, 2, 3)"}
+	goRes := []string{"go0(s)", "40", "go2(1,2,3)"}
+	awkRes := []string{"awk0(s,,)", "awk1(4.9,,)", "awk2(1,2,3)"}
+	for i := range names {
+		fmt.Fprintf(&src, "  obs(%s \"\")\n", calls[i])
+		if mask&(1<<uint(i)) != 0 {
+			want = append(want, awkRes[i])
+		} else {
+			want = append(want, goRes[i])
+		}
+	}
+	src.WriteString("}\n")
+	c.Announce(s)
+	prog, perr, ppanic := awk.Parse(src.String(), funcs)
+	c.Eval(1)
+	c.Add("transitions", 1)
+	if perr != nil || ppanic != "" {
+		r.fail(c, "shadow-parse", s, fmt.Sprintf("%v %s :: %s", perr, firstLine(ppanic), src.String()))
+		return
+	}
+	res := awk.Exec(prog, &interp.Config{Funcs: funcs})
+	c.Outcome("shadow " + strings.Join(got, " "))
+	switch {
+	case res.Panic != "":
+		r.fail(c, "shadow-call-panic", s, firstLine(res.Panic)+" :: "+src.String())
+	case res.Err != nil:
+		r.fail(c, "shadow-error", s, res.Err.Error()+" :: "+src.String())
+	case strings.Join(got, "|") != strings.Join(want, "|"):
+		r.fail(c, "shadow-wrong-function-called", s, fmt.Sprintf("got %q want %q :: %s", got, want, src.String()))
 	}
 }
 
